@@ -9,6 +9,7 @@ package controllers
 // nameOf(x): the object name GetName reports for the value x (a function of the value, not of where it is stored).
 //@ ufun nameOf(T) string
 //@ func (PT).GetName
+//@   trusted
 //@   pure
 //@   ensures result == nameOf(*self)
 
